@@ -436,6 +436,10 @@ GOLDEN_CASCADE = [json.loads(x) for x in r"""
 {"t":900002,"e":"S","q":11,"op":1,"first":false,"last":true,"H":[10,12,9,12,0,1],"W":[0,6,0,6,0,0],"C":[0,8,0,8,0,0],"b2":[],"rd":[1,3,-1],"wr":[]}
 {"t":900002,"e":"End"}
 """.strip().splitlines()]
+for _tr in (GOLDEN_SINGLE, GOLDEN_CASCADE):      # header fields added after the traces were frozen
+    _tr[0]["model"] = True
+    for _i, _o in enumerate(_tr[0]["ops"]):
+        _o.update(chk=True, full=_i == len(_tr[0]["ops"]) - 1)
 
 
 def negative_controls(run):
